@@ -91,9 +91,10 @@ class Check:
         """run one sub-check; an engine that cannot decide (budget, unsupported construct) makes the whole check
         undecided (exit 2) unless another sub-check found a violation -- it never counts as a pass"""
         from interp import Unsupported, BudgetExceeded
+        from front import AnalysisBroken
         try:
             return fn(*args, **kw)
-        except (Unsupported, BudgetExceeded) as ex:
+        except (Unsupported, BudgetExceeded, AnalysisBroken) as ex:
             self.undecided.append('%s: %s' % (what, ex))
             return None
 
